@@ -11,7 +11,9 @@ RULE = ("SBX / polynomial / uniform / non-uniform mutation driven directly with 
         "of NSGA-II, eps-MOEA, OMOPSO, SMPSO, PSOGA whose objective checks every vector it receives. non-trivial = case with a "
         "parent on/next to a bound or an edge RNG draw, or a completed run; distinct by (operator, box, parents, seed)")
 ASSUMPTIONS = ["tolerance: 0 for operator outputs (they clip); 1e-12 + 4 ulp for generators without declared precision; "
-               "precision/2 + 4 ulp with declared precision", "a run that aborts with an exception is counted, not judged by this property"]
+               "precision/2 + 4 ulp with declared precision", "a run that aborts with an exception is counted, not judged by this property",
+               "boxes with bounds up to 1.79e308 are given to the variation operators only; generators and runs get bounds up to 1e12 "
+               "(the default 1e-12 rounding grid, round(x / 1e-12), cannot be formed beyond 1.8e296 and is far below one ulp long before)"]
 SHARDS = {"quick": 1, "thorough": 16}
 WATCHDOG = {"quick": 900, "thorough": 3000}
 OPS = ["sbx", "pm", "uniform", "nonuniform"]
@@ -90,7 +92,7 @@ def run_case(ctx, name, params):
     if name == "operator":
         op = params["op"]
         n = r.randint(1, 6)
-        fam = r.choice(gen.BOX_FAMILIES)
+        fam = r.choice(gen.BOX_FAMILIES + ["extreme"])      # operators only: see ASSUMPTIONS for generators and runs
         bxs = gen.boxes(r, n, fam)
         P = [{"name": "x%d" % i, "bounds": list(b)} for i, b in enumerate(bxs)]
         hr = vrng.HostileRandom(params["seed"], r.choice([0.1, 0.3, 0.3]) if op == "sbx" else r.choice([0.0, 0.1, 0.3]))
